@@ -406,7 +406,8 @@ defvjp(anp.kron, partial(grad_kron, 0), partial(grad_kron, 1))
 
 def grad_transpose(ans, x, axes=None):
     if axes is not None:
-        axes = anp.argsort(axes)
+        # negative entries count from the end; normalise before inverting the permutation
+        axes = anp.argsort([axis % anp.ndim(x) for axis in axes])
     return lambda g: anp.transpose(g, axes)
 
 
